@@ -2,6 +2,17 @@
 from pyvc.spec import *
 from contracts.hb import *
 
+EXPLANATION = (
+    "Rung.quantile is proved equal to numpy's linear quantile for rungs of any length; "
+    "the stop/continue decision of StoppingRungSystem.on_task_report is proved against the documented rule "
+    "(own value inserted first, tie latitude) for rung contents of any length and 0..3 rung levels per system."
+)
+ASSUMPTIONS = [
+    "A-REAL: floats are mathematical reals",
+    "metric / resource attribute names are fixed distinct literals ('loss', 'epoch'); the code is parametric in them",
+    "number of rungs per rung system is concrete (0..3) in the proof units of on_task_report; rung contents are unbounded",
+]
+
 
 @contract(HB_STOP + ":Rung.quantile", props=("C03", "C04", "C15"))
 class Rung_quantile:
@@ -19,3 +30,94 @@ class Rung_quantile:
             "value==np.quantile": req(result, np_quantile_linear(old.self)),
             "frame": unchanged(s.self, old.self),
         }
+
+
+@contract(HB_STOP + ":Rung.add", props=("C03", "C04"))
+class Rung_add:
+    params = dict(self=Obj("Rung"), entry=Obj("RungEntry"))
+
+    def requires(s):
+        return {"fresh-id": s.entry.trial_id not in s.self}
+
+    def ensures(old, s, result):
+        return {
+            "inserted": inserted(s.self, old.self, old.entry.trial_id, old.entry.metric_val),
+            "member": old.entry.trial_id in s.self,
+            "len": len(s.self) == len(old.self) + 1,
+        }
+
+
+@contract(HB_STOP + ":Rung.pop", props=("C03", "C04"))
+class Rung_pop:
+    params = dict(self=Obj("Rung"), pos=Int)
+
+    def requires(s):
+        return {"in-range": 0 <= s.pos and s.pos < len(s.self.data)}
+
+    def ensures(old, s, result):
+        n = len(old.self.data)
+        return {
+            "returns-entry": same_entry(result, old.self.data[old.pos]),
+            "len": len(s.self.data) == n - 1,
+            "before": forall(range(0, n - 1), lambda i: same_entry(s.self.data[i], old.self.data[i]) if i < old.pos else True),
+            "after": forall(range(0, n - 1), lambda i: same_entry(s.self.data[i], old.self.data[i + 1]) if i >= old.pos else True),
+            "not-member": result.trial_id not in s.self,
+        }
+
+
+@contract(HB_STOP + ":StoppingRungSystem._task_continues", props=("C03", "C15"))
+class Stopping_task_continues:
+    params = dict(self=Obj("StoppingRungSystem"), trial_id=Str, metric_val=Real, rung=Obj("Rung"))
+    proof_shapes = [{"self._rungs": 0}]
+    shapes = [{"self._rungs": 0, "*": k} for k in range(0, 4)]
+
+    def requires(s):
+        return {"mode": s.rung._is_min == (s.self._mode == "min")}
+
+    def ensures(old, s, result):
+        return {"rule": stop_rule(old.rung, old.metric_val, result), "frame": unchanged(s.rung, old.rung)}
+
+
+def _find_level(rungs, resource):
+    """index of the rung whose level equals ``resource`` (concrete list), else None"""
+    for j in range(len(rungs)):
+        if rungs[j].level == resource:
+            return j
+    return None
+
+
+@contract(HB_STOP + ":StoppingRungSystem.on_task_report", props=("C03",))
+class Stopping_on_task_report:
+    params = dict(self=Obj("StoppingRungSystem"), trial_id=Str, result=Rec(epoch=Int, loss=Real), skip_rungs=Int)
+    proof_shapes = [{"self._rungs": k} for k in range(0, 4)]
+    shapes = [{"self._rungs": k, "*": n} for k in range(0, 4) for n in range(0, 3)]
+
+    def requires(s):
+        return {"skip": 0 <= s.skip_rungs, "resource": 1 <= s.result["epoch"] and s.result["epoch"] <= s.self._max_t}
+
+    def ensures(old, s, result):
+        rs0 = old.self
+        rs1 = s.self
+        n = len(rs0._rungs)
+        res = old.result["epoch"]
+        metric = old.result["loss"]
+        skip = old.skip_rungs
+        nmil = n - skip if skip < n else 0  # rungs [0, nmil) are the trial's milestone rungs
+        if skip == 0:
+            nmil = n
+        out = {"keys": len(result) == 3, "frame-scalars": rs1._max_t == rs0._max_t and rs1._mode == rs0._mode and len(rs1._rungs) == n}
+        if res == rs0._max_t:
+            out["at-max-stops"] = result["task_continues"] == False and result["milestone_reached"] == True  # noqa: E712
+            out["at-max-frame"] = unchanged(rs1, rs0)
+            return out
+        j = _find_level(rs0._rungs, res)
+        decided = j is not None and j < nmil and (old.trial_id not in rs0._rungs[j])
+        if decided:
+            out["entered-once"] = inserted(rs1._rungs[j], rs0._rungs[j], old.trial_id, metric)
+            out["rule"] = stop_rule(rs1._rungs[j], metric, result["task_continues"])
+            out["milestone"] = result["milestone_reached"] == True  # noqa: E712
+            out["others-unchanged"] = forall(range(0, n), lambda i: unchanged(rs1._rungs[i], rs0._rungs[i]) if i != j else True)
+        else:
+            out["no-decision-off-milestone"] = result["task_continues"] == True and result["milestone_reached"] == False  # noqa: E712
+            out["frame"] = unchanged(rs1, rs0)
+        return out
